@@ -310,74 +310,145 @@ def make_algo(scn):
     return a, est
 
 
-def run_impl(scn):
-    """run the real algorithm; everything recorded is plain python data"""
-    from acnportal.algorithms.tests.testing_interface import TestingInterface
-    iface = TestingInterface(iface_data(scn))
-    algo, est = make_algo(scn)
-    algo.register_interface(iface)
-    rec = dict(pre=None, order=None)
-    if scn["algo"] != "unc":
+class Observed:
+    """Observers installed ONCE on a real algorithm object (stub-driven or inside the Simulator).  They only watch:
+    the real methods still do all the work.  Per call (`begin` ... `end`) they record the output of
+    run_preprocessing, the order in which sorting_algorithm / round_robin actually walk the sessions (the sequence of
+    get_station_index calls of their first loop -- independent of how the queue was obtained), the sort function's
+    output when it is called, and for round robin every vector handed to the feasibility check."""
+
+    def __init__(self, algo, est, kind):
+        self.algo, self.est, self.kind = algo, est, kind
+        self.rec = {}
+        if kind == "unc":
+            return
         orig_pre = algo.run_preprocessing
 
         def pre(active_sessions, infrastructure):
             out = orig_pre(active_sessions, infrastructure)
-            rec["pre"] = [[sid_of(s.session_id), [float(x) for x in np.asarray(s.min_rates, dtype=float)],
-                           [float(x) for x in np.asarray(s.max_rates, dtype=float)]] for s in out]
+            self.rec["pre"] = [[sid_of(x.session_id), [float(v) for v in np.asarray(x.min_rates, dtype=float)],
+                                [float(v) for v in np.asarray(x.max_rates, dtype=float)]] for x in out]
             return out
         algo.run_preprocessing = pre
         orig_sort = algo._sort_fn
 
         def srt(evs, ifc):
             out = orig_sort(evs, ifc)
-            rec["order"] = [sid_of(s.session_id) for s in out]
+            self.rec["sort_out"] = [sid_of(x.session_id) for x in out]
             return out
         algo._sort_fn = srt
-    err, sched, raw = None, None, None
-    trace = None
-    import acnportal.algorithms.sorted_algorithms as sa_mod
-    orig_feas = sa_mod.infrastructure_constraints_feasible
-    if scn["algo"] == "rr":
-        # observe the intermediate round-robin states: every vector handed to the feasibility check inside
-        # round_robin() and the verdict (the real function is still the one that decides)
-        trace = []
+        name = "round_robin" if kind == "rr" else "sorting_algorithm"
+        orig_alg = getattr(algo, name)
 
-        def feas(rates, infrastructure, *a, **k):
-            r = orig_feas(rates, infrastructure, *a, **k)
-            if trace is not None and len(trace) <= 3000:
-                trace.append(([float(x) for x in np.asarray(rates, dtype=float)], bool(r)))
-            return r
-        sa_mod.infrastructure_constraints_feasible = feas
-    try:
-        raw = algo.run()
-    except Exception as e:  # noqa
-        err = type(e).__name__
-    finally:
-        sa_mod.infrastructure_constraints_feasible = orig_feas
-    N = scn["infra"]["N"]
-    shape_ok = True
-    if raw is not None:
-        if scn["algo"] == "unc":
-            sched = [None] * N
-            for k_, v in raw.items():
-                i = int(k_[3:])
-                if not (isinstance(v, list) and len(v) == 1):
+        def alg(active_sessions, infrastructure):
+            seen = []
+            orig_idx = infrastructure.get_station_index
+
+            def idx(station_id):
+                i = orig_idx(station_id)
+                seen.append(i)
+                return i
+            infrastructure.get_station_index = idx
+            self.rec["alg_sessions"] = [(sid_of(x.session_id), orig_idx(x.station_id)) for x in active_sessions]
+            self.rec["seen"] = seen
+            self.rec["in_alg"] = True
+            try:
+                return orig_alg(active_sessions, infrastructure)
+            finally:
+                self.rec["in_alg"] = False
+        setattr(algo, name, alg)
+
+    def begin(self):
+        self.rec = dict(pre=None, sort_out=None, alg_sessions=None, seen=None, in_alg=False, trace=[] if self.kind == "rr" else None)
+        if self.kind == "rr":
+            import acnportal.algorithms.sorted_algorithms as sa_mod
+            self._sa_mod, self._orig_feas = sa_mod, sa_mod.infrastructure_constraints_feasible
+            rec, orig = self.rec, self._orig_feas
+
+            def feas(rates, infrastructure, *a, **k):
+                r = orig(rates, infrastructure, *a, **k)
+                if rec["in_alg"] and rec["trace"] is not None:
+                    if len(rec["trace"]) <= 3000:
+                        rec["trace"].append(([float(x) for x in np.asarray(rates, dtype=float)], bool(r)))
+                    else:
+                        rec["trace"] = None
+                return r
+            sa_mod.infrastructure_constraints_feasible = feas
+
+    def end(self, raw, err, N):
+        if self.kind == "rr":
+            self._sa_mod.infrastructure_constraints_feasible = self._orig_feas
+        rec = self.rec
+        shape_ok, sched = True, None
+        if raw is not None:
+            if self.kind == "unc":
+                sched = [None] * N
+                for k_, v in raw.items():
+                    if not (isinstance(v, list) and len(v) == 1):
+                        shape_ok = False
+                    sched[int(k_[3:])] = float(v[0])
+            else:
+                sched = []
+                if sorted(raw.keys()) != sorted(station_name(i) for i in range(N)):
                     shape_ok = False
-                sched[i] = float(v[0])
-        else:
-            sched = []
-            if sorted(raw.keys()) != sorted(station_name(i) for i in range(N)):
-                shape_ok = False
-            for i in range(N):
-                v = raw.get(station_name(i), [float("nan")])
-                if not (isinstance(v, list) and len(v) == 1):
-                    shape_ok = False
-                sched.append(float(v[0]))
-    store = None
-    if est is not None:
-        store = {sid_of(k): float(v) for k, v in est.upper_bounds.items()}
-    return dict(err=err, sched=sched, pre=rec["pre"], order=rec["order"], store=store, shape_ok=shape_ok,
-                rr_trace=trace if (trace is not None and len(trace) <= 3000) else None)
+                for i in range(N):
+                    v = raw.get(station_name(i), [float("nan")])
+                    if not (isinstance(v, list) and len(v) == 1):
+                        shape_ok = False
+                    sched.append(float(v[0]))
+        order = rec.get("sort_out")
+        als = rec.get("alg_sessions")
+        if als is not None and rec.get("seen") is not None:
+            sts = [st for _, st in als]
+            if len(set(sts)) == len(sts) and len(rec["seen"]) >= len(als):
+                by_st = {st: sid for sid, st in als}
+                walked = rec["seen"][:len(als)]
+                if sorted(walked) == sorted(sts):
+                    order = [by_st[st] for st in walked]       # the order actually walked
+        store = None
+        if self.est is not None:
+            store = {sid_of(k): float(v) for k, v in self.est.upper_bounds.items()}
+        return dict(err=err, sched=sched, pre=rec.get("pre"), order=order, store=store, shape_ok=shape_ok,
+                    rr_trace=rec.get("trace"))
+
+
+class StubDriver:
+    """ONE real algorithm object driven through consecutive run() calls via the repo's TestingInterface.  Between calls
+    only the interface's data changes (the algorithm is neither re-created nor re-registered) unless
+    `reregister=True` (the same object moved to another network)."""
+
+    def __init__(self, scn):
+        from acnportal.algorithms.tests.testing_interface import TestingInterface
+        self.iface = TestingInterface(iface_data(scn))
+        self.algo, self.est = make_algo(scn)
+        self.algo.register_interface(self.iface)
+        self.obs = Observed(self.algo, self.est, scn["algo"])
+        self.calls = 0
+
+    def call(self, scn, reregister=False):
+        from acnportal.algorithms.tests.testing_interface import TestingInterface
+        if self.calls > 0:
+            if scn.get("est") is not None and self.est is not None:
+                # the model is fed the estimator's TRUE state at this call
+                scn["est"]["store"] = {sid_of(k): float(v) for k, v in self.est.upper_bounds.items()}
+            if reregister:
+                self.iface = TestingInterface(iface_data(scn))
+                self.algo.register_interface(self.iface)
+            else:
+                self.iface.data = iface_data(scn)
+        self.calls += 1
+        self.obs.begin()
+        raw, err = None, None
+        try:
+            raw = self.algo.run()
+        except Exception as e:  # noqa
+            err = type(e).__name__
+        return self.obs.end(raw, err, scn["infra"]["N"])
+
+
+def run_impl(scn):
+    """run the real algorithm once on a fresh object; everything recorded is plain python data"""
+    return StubDriver(scn).call(scn)
 
 
 # =============================================================================================
@@ -935,3 +1006,167 @@ def gen_level_edge(rng, tier, sort=None, unint=None, algo="greedy", deltas=None)
         scn["edge"] = dict(station=i, level=target, delta=delta, style=style)
         return scn
     return gen_scenario(rng, tier, algo=algo, sort=sort, unint=unint, est=False, user_bounds=False)
+
+
+# =============================================================================================
+# multi-call sequences: ONE algorithm object, consecutive periods, optionally moved to another network
+# =============================================================================================
+import copy as _copy
+
+
+def gen_flip_scenario(rng, tier, algo=None, sort=None):
+    """Two or three sessions behind one binding single-phase limit, keys built so that the LLF / LRPT order flips after a
+    few periods: the session served first keeps its laxity (resp. loses processing time) while the waiting one loses
+    laxity (resp. keeps its processing time)."""
+    N = rng.choice([2, 2, 3])
+    sort = sort or rng.choice(["llf", "lrpt", "llf", "lrpt", "edf", "fcfs"])
+    algo = algo or rng.choice(["greedy", "greedy", "rr"])
+    finite = rng.random() < 0.4
+    maxp = [float(rng.choice([32, 32, 16, 40])) for _ in range(N)]
+    if rng.random() < 0.6:
+        maxp = [maxp[0]] * N
+    allow, cont, minp, etype = [], [], [], []
+    for i in range(N):
+        if finite:
+            lv = [0.0] + [float(x) for x in range(8, int(maxp[i]) + 1, 8)]
+            allow.append(lv); cont.append(False); minp.append(8.0); etype.append("F"); maxp[i] = max(lv)
+        else:
+            allow.append([0.0, maxp[i]]); cont.append(True); minp.append(0.0); etype.append("C0")
+    volt = [float(rng.choice([208, 240]))] * N if rng.random() < 0.6 else [float(rng.choice([208, 240, 120])) for _ in range(N)]
+    lim = float(rng.choice([max(maxp), max(maxp), max(maxp) + 8, round(max(maxp) * rng.uniform(0.6, 1.4), 1)]))
+    infra = dict(N=N, A=[[1.0] * N], L=[lim], phases=[0.0] * N, volt=volt, maxp=maxp, minp=minp, allow=allow,
+                 cont=cont, etype=etype)
+    period = float(rng.choice([5, 5, 15, 1]))
+    now = rng.randint(3, 30)
+    sess = []
+    base_rpt = rng.uniform(4.0, 7.0)
+    arrs = rng.sample(range(0, now + 1), N)
+    for j in range(N):
+        st = j
+        d = rng.uniform(0.4, 2.6) * j
+        dep = now + rng.randint(14, 20)
+        edep = now + 10 + 2 * j
+        if sort == "llf":
+            lax0 = 10 - base_rpt                   # laxity of the first-served session
+            rpt = (edep - now) - (lax0 + d)
+        else:
+            rpt = base_rpt - d if sort == "lrpt" else base_rpt + rng.uniform(-1, 1)
+        rpt = max(rpt, 1.5)
+        rap = rpt * maxp[st]
+        req = rap * volt[st] / 1000.0 * period / 60.0
+        sess.append(dict(st=st, sid=200 + 3 * j + rng.randint(0, 2), req=float(req), deliv=0.0, arr=arrs[j], dep=dep,
+                         edep=edep, mins=0, maxs=INF))
+    rng.shuffle(sess)
+    return dict(infra=infra, period=period, now=now, sessions=sess, algo=algo, sort=sort, est=None,
+                unint=rng.random() < 0.25, inc=rng.choice([0.5, 1.0]))
+
+
+def other_network(rng, infra):
+    """another network with the SAME station ids: different ratings, limits, phases, voltages"""
+    inf = _copy.deepcopy(infra)
+    N = inf["N"]
+    for i in range(N):
+        if inf["cont"][i]:
+            mx = float(rng.choice([16, 24, 40, 64, 12.5]))
+            inf["maxp"][i] = mx
+            inf["allow"][i] = [inf["allow"][i][0] if inf["allow"][i][0] < mx else 0.0, mx]
+            inf["minp"][i] = inf["allow"][i][0]
+        else:
+            lv = list(rng.choice(FINITE_SETS[:6]))
+            inf["allow"][i] = lv
+            inf["maxp"][i] = max(lv)
+            inf["minp"][i] = min(a for a in lv if a > 0)
+            inf["etype"][i] = "F"
+        inf["volt"][i] = float(rng.choice([208, 240, 120, 277]))
+        inf["phases"][i] = float(rng.choice([0.0, 120.0, -120.0, 30.0]))
+    inf["L"] = [float(round(l * rng.uniform(0.4, 1.6), 1)) for l in inf["L"]]
+    return inf
+
+
+def advance(scn, impl, rng=None):
+    """the state the next period's call sees when every EV draws exactly its pilot"""
+    nxt = _copy.deepcopy(scn)
+    inf = scn["infra"]
+    nxt["now"] = scn["now"] + 1
+    kept = []
+    pp, pr = {}, {}
+    for s in nxt["sessions"]:
+        p = impl["sched"][s["st"]] if impl["sched"] is not None else 0.0
+        p = p or 0.0
+        s["deliv"] = float(s["deliv"] + p * inf["volt"][s["st"]] / 1000.0 * scn["period"] / 60.0)
+        pp[s["sid"]] = float(p)
+        pr[s["sid"]] = float(p if rng is None or rng.random() < 0.7 else p * rng.uniform(0.3, 0.95))
+        if s["dep"] > nxt["now"]:
+            if isinstance(s["mins"], list):
+                rt = max(min(s["dep"] - s["arr"], s["dep"] - nxt["now"]), 0)
+                s["mins"] = s["mins"][:rt] + [0.0] * (rt - len(s["mins"]))
+            if isinstance(s["maxs"], list):
+                rt = max(min(s["dep"] - s["arr"], s["dep"] - nxt["now"]), 0)
+                s["maxs"] = s["maxs"][:rt] + [s["maxs"][-1]] * (rt - len(s["maxs"]))
+            kept.append(s)
+    nxt["sessions"] = kept
+    if nxt.get("est") is not None:
+        nxt["est"]["prev_pilot"] = pp
+        nxt["est"]["prev_rate"] = pr
+    return nxt
+
+
+def run_sequence(rng, tier, steps=6, algo=None, sort=None):
+    """returns [(scenario_t, impl_t, tag)]: every call of ONE algorithm object over consecutive periods"""
+    if rng.random() < 0.65:
+        scn = gen_flip_scenario(rng, tier, algo=algo, sort=sort)
+        if rng.random() < 0.3:
+            scn["est"] = gen_ramp(rng, scn["infra"], scn["sessions"])
+    else:
+        scn = gen_scenario(rng, tier, algo=algo or rng.choice(["greedy", "rr"]), sort=sort, user_bounds=False, plenty=0.8)
+        if scn["inc"] == 0.1:
+            scn["inc"] = 0.5
+    driver = StubDriver(scn)
+    out, hist = [], []
+    switch_at = rng.choice([None, None, 2, 3])
+    for t in range(steps):
+        rereg = False
+        if t > 0 and t == switch_at:
+            scn["infra"] = other_network(rng, scn["infra"])
+            rereg = True
+        scn = _copy.deepcopy(scn)
+        scn.pop("history", None)
+        impl = driver.call(scn, reregister=rereg)
+        rec = _copy.deepcopy(scn)
+        # what the same object was asked before (needed to replay a state-dependent failure)
+        scn["history"] = list(hist)
+        scn["rereg"] = rereg
+        hist.append(dict(scn=rec, rereg=rereg))
+        out.append((scn, impl, "seq%d%s" % (t, "*" if rereg else "")))
+        if impl["err"] is not None or not scn["sessions"]:
+            break
+        scn = advance(rec, impl, rng)
+    return out
+
+
+def replay_with_history(scn):
+    """re-drive ONE fresh algorithm object through the recorded earlier calls, then the call itself"""
+    scn = scn_from_json(scn)
+    hist = [dict(scn=scn_from_json(h["scn"]), rereg=h["rereg"]) for h in scn.get("history", [])]
+    if not hist:
+        return scn, run_impl(scn)
+    driver = StubDriver(hist[0]["scn"])
+    for h in hist:
+        driver.call(h["scn"], reregister=h["rereg"])
+    return scn, driver.call(scn, reregister=bool(scn.get("rereg")))
+
+
+def run_unc_pair(rng, tier):
+    """ONE UncontrolledCharging object used on a network and then on another network with the same station ids"""
+    a = gen_scenario(rng, tier)
+    a = dict(a, algo="unc", est=None)
+    driver = StubDriver(a)
+    out = [(a, driver.call(a), "unc-first")]
+    b = _copy.deepcopy(a)
+    b["infra"] = other_network(rng, a["infra"])
+    rereg = rng.random() < 0.7          # a new Simulator registers a new interface; or the network is re-rated in place
+    implb = driver.call(b, reregister=rereg)
+    b["history"] = [dict(scn=_copy.deepcopy(a), rereg=False)]
+    b["rereg"] = rereg
+    out.append((b, implb, "unc-second"))
+    return out
